@@ -18,6 +18,14 @@ NOTES = {
     "C14c": "first evaluation missed it (the receiving store never had a checkpoint of its own under the same term-index name); caught after that was added to the restore-on-another-store step",
     "C14d": "first evaluation missed it (the check waited for the end of a backup before writing on); caught after writes between the frozen signal (WaitReady) and the end of the backup were added, as the node's apply loop produces them",
     "C19c": "first evaluation missed it (snapshot object and its serialisation were back to back); caught after a delivery may come between the two, as the apply loop allows",
+    "C12d": "not a cross-key defect: a range bounded by the empty member covers the whole set (within one key). C12's frame check works at key granularity and does not see it; C08's model check does (quick tier)",
+    "C04d": "not reachable by process-level histories (a sub-millisecond window plus a second fault) and invisible to lib/raftsim, which re-implements processReady's step order. Caught since C03 has the sub-run ready_order: generated Ready values through the REAL raftNode.processReady with a recording WAL and transport",
+    "C04c": "first evaluation missed it (no DEL in the histories); caught after DEL and HSET (commands that join the engine write batch of an apply batch) were added to the pending-table state machine (sub-run waiters)",
+    "C12c": "first evaluation missed it twice: collections above 5000 elements were never built (added: big_collection mode), and the check ran the versioned data layout only (added: the expiry policy is drawn; the change bites under local_deletion, the production default)",
+    "C08c": "first evaluation missed it; caught after whole-range by-score queries with LIMIT offset / negative count were added to the grammar",
+    "C15d": "first evaluation missed it (the server always hosted all or all but one partition); caught after any non-empty subset of partitions can be hosted, down to exactly one of many",
+    "C07c": "first evaluation missed it; caught after a plan may restart the replica from a checkpoint in the middle of the log (which also exposed the known finding C07-kv-commands-on-hll-key-depend-on-cache-flush)",
+    "C05c": "first evaluation missed it; caught after the generator got the macro 'snapshot marker, then a Save that carries only a hard state' (and saves sized to end near the segment boundary)",
     "C15a": "first evaluation missed it; caught after the routing sub-run got a namespace life cycle step (an earlier creation of the same name with another partition count that fails while opening its store)",
     "C16b": "first evaluation missed it; caught after truncation cuts at every field boundary of large messages were added",
     "C19b": "first evaluation missed it (only the receiver was driven); caught by the new sender sub-run: the real logSyncerSM + RemoteLogSender over loopback gRPC in front of the real receiver",
@@ -26,6 +34,10 @@ NOTES = {
     "C06b": "first evaluation missed it (optimized_fsync was off); caught after the namespace option became a drawn parameter",
     "C04a": "missed by both tiers of the process-level histories: the change leaves the request id of a failed proposal registered and bites only when the pooled wait object of that proposal has been handed to another request that is in flight at the instant the old entry is applied. The histories were extended towards it (all followers descheduled beyond the 4 s proposal deadline, apply-loop stalls through the crash-point hook, clients that keep their connection after an error reply) and now produce failed proposals that commit later in every other history, but sync.Pool hands the released object to the request after next, so no victim was in flight in 330+16 histories. Caught since the pending request table is checked as a state machine of its own (sub-run waiters: propose / cancel / drop / commit on the real KVNode proposal path behind a schedule-owning fake raft), in the first case",
 }
+
+
+# a change filed under one property by its author but caught by another property's check: that check is run as well
+ALT = {"C12d": "C08", "C04d": "C03"}
 
 
 def demo_cmd(d):
@@ -82,6 +94,13 @@ def one(sid, tier):
         "check": {"command": ev.get("check_cmd"), "exit": ev.get("check_exit"), "wall_s": ev.get("check_wall_s"),
                   "detected": ev.get("detected"), "lines": ev.get("check_lines")},
     }
+    if sid in ALT and not ev.get("detected"):
+        r2 = subprocess.run(["/verif/tools/seedeval.py", d, ALT[sid], "--tier", tier, "--skip-baseline"], stdout=subprocess.PIPE, stderr=subprocess.PIPE)
+        try:
+            e2 = json.loads(r2.stdout.decode())
+        except Exception:
+            e2 = {"error": (r2.stdout.decode() + r2.stderr.decode())[-800:]}
+        meta["also_checked_with"] = {"property": ALT[sid], "command": e2.get("check_cmd"), "exit": e2.get("check_exit"), "detected": e2.get("detected"), "lines": e2.get("check_lines")}
     if sid in NOTES:
         meta["note"] = NOTES[sid]
     json.dump(meta, open(os.path.join(d, "meta.json"), "w"), indent=1, ensure_ascii=False)
